@@ -11,6 +11,8 @@ var stdAssumptions = []string{
 // expectedReach lists, per property, the reach counters that a healthy run of
 // the check should see above zero; those at zero are reported as blind spots.
 var expectedReach = map[string][]string{
+	"C15": {"sender-aborted-on-tampering", "honest-accepted", "accepted-with-intact-correlation(unselected column or padding row or response-only)"},
+	"C06": {"kind.CO", "kind.RSA-1024", "kind.COT", "kind.COT-malicious", "kind.ROT", "kind.ROT-malicious", "batch.n%8!=0", "batch.n%64!=0,n>64", "batch.multi-chunk", "batch.repeated-on-one-instance"},
 	"C16": {"outcome.garbler-error", "outcome.session-stalled", "outcome.garbler-correct-despite-corruption"},
 	"C02": {"pipe.short-reads", "pipe.writer-blocked", "pipe.one-byte-reads", "ot.CO", "ot.COT", "ot.COT-malicious", "ot.RSA-1024", "circuit.multi-output"},
 	"C19": {"net.data-before-accept", "net.backlog>1", "mutex.contended", "cond.wakeup"},
@@ -18,6 +20,18 @@ var expectedReach = map[string][]string{
 }
 
 var props = map[string]propCfg{
+	"C15": {
+		Quick: 20 * time.Second, Thorough: 8 * time.Minute, Level: "fault_enumeration",
+		Rule:        "one case = one IKNP instance (sender task, receiver task, message-level ot.IO) serving 8..47 malicious-mode trials, each with a batch size from {1,2,7,8,9,15..17,63..65,127..129,511..513,600,1024,1025}, a choice vector and a tampering plan from the fault stream: honest; one bit (column,row) of the payload extension matrix; one bit of the 256-row check batch; 2..8 simultaneous flips; alteration of seed2/x/t0/t1 alone or with a flip; oracle: honest never aborts, acceptance implies recv = sent xor choice*Delta for the receiver's original choices; non-trivial = every case; distinct = distinct SHA-256 of the event log",
+		Components:  map[string]string{"ot.IKNPSender.Send / IKNPReceiver.Receive (malicious), gf128, mul128": "real code", "base OTs": "stub (both labels in clear) in 15/16 of the cases, real Chou-Orlandi otherwise", "transport + tamperer": "message-level ot.IO of the simulator (simio)"},
+		Assumptions: stdAssumptions,
+	},
+	"C06": {
+		Quick: 25 * time.Second, Thorough: 10 * time.Minute, Level: "exploration",
+		Rule:        "one case = one seeded sender/receiver session: scenario in {ot.OT Send/Receive for CO, RSA-1024, COT, COT-malicious, ROT, ROT-malicious (shared and non-shared, Init repeated on shared instances); raw IKNP label form (semi-honest and malicious); raw IKNP packed-bit form; pure Chou-Orlandi helpers on P-224/P-256/P-384}, 1..4 consecutive batches on one instance with sizes from {1..9, 15..17, 63..65, 127..129, 255..257, 511..513, 1023..1025, 1535..1537, 2047..2049, random<=2100}, choice vectors all-0/all-1/alternating/last-only/random, transport p2p.Conn on a simulated pipe (capacity, fragmentation, latency) or a message-level ot.IO, schedule from the tape; non-trivial = more than 2 task switches; distinct = distinct SHA-256 of the event log",
+		Components:  map[string]string{"ot.CO/RSA/COT/ROT/IKNP/MITCCRH, co_helpers, p2p.Conn": "real code", "IKNP base OTs": "real Chou-Orlandi in a share of runs, otherwise a stub that sends both labels in clear (simio.ClearOT)", "transport": "simulated pipe or message-level ot.IO", "crypto/rand": "seeded DRBG"},
+		Assumptions: stdAssumptions,
+	},
 	"C16": {
 		Quick: 25 * time.Second, Thorough: 10 * time.Minute, Level: "fault_enumeration", MemLimitMB: 6144,
 		Rule:        "one case = one clean reference session plus 4..11 corrupted sessions of the same circuit, inputs and randomness (whole-circuit and streaming mode), each with a corruption plan drawn from the fault stream: 1..4 faults, direction G->E or E->G, byte offset (head-, tail- and uniformly-biased) within the clean transcript, single-bit/0xff/random-mask flip or 2..41-byte burst; the garbler's outcome must be error, stall/abort or the truth-table result; non-trivial = at least one fault fired; distinct = distinct SHA-256 over the event logs of all sessions of the case",
